@@ -70,6 +70,11 @@ def witness_source(tier, alloc):
             if n <= 100:
                 L.append("pub fn b_repconst_%d() -> alloc::boxed::Box<GenericArray<u32, U%d>> { box_arr![x(); %d] }" % (n, n, n))
     L.append("pub fn w_repty_exp() -> GenericArray<u32, Exp<U10, U3>> { arr![x(); Exp<U10, U3>] }")
+    # the usize repeat form takes any constant expression a native `[x; n]` takes: a const generic parameter of the enclosing function, an
+    # associated constant through `Self` (accept witnesses: they must compile - an expansion that puts the length into a nested item cannot see them)
+    L.append("pub fn g_repconst_generic_braced<const K: usize>() -> GenericArray<u32, generic_array::ConstArrayLength<K>> where generic_array::typenum::Const<K>: generic_array::IntoArrayLength { arr![x(); { K }] }")
+    L.append("pub struct HasLen; impl HasLen { pub const LEN: usize = 3; pub fn make() -> GenericArray<u32, U3> { arr![x(); { Self::LEN }] } }")
+    L.append("pub fn g_use() -> (GenericArray<u32, U4>, GenericArray<u32, U2>) { (g_repconst_generic_braced::<4>(), g_repconst_generic_braced::<2>()) }")
     return "\n".join(L) + "\n", ks
 
 
